@@ -621,7 +621,7 @@ Fixpoint exec (c : wcfg) (evs : list event) (ops : list fsop) (f : fs) {struct e
   | [] => (Some (Ret tt), run_ops ops f)
   | ev :: evs' =>
     match ops with
-    | [] => (Some (Ret tt), f)
+    | [] => (match ev with EDie _ => None | _ => Some (Ret tt) end, f)   (* dies after the last call, before returning *)
     | op :: ops' =>
       match ev with
       | EOk => exec c evs' ops' (apply_op f op)
